@@ -207,7 +207,7 @@ PROPS = {
             "the same group/continuation/sign constants and the signed writer's termination inspects the sign bit. Does NOT decide "
             "agreement with a C compiler for arbitrary definitions nor round-trip equality for all byte strings."
         ),
-        rules=[(R_st.r_walk, Q), (R_st.r_guard, Q), (R_st.r_ptype, Q), (R_st.r_leb, Q), (R_st.r_psize, Q), (R_st.r_elemadv, Q)],
+        rules=[(R_st.r_walk, Q), (R_st.r_guard, Q), (R_st.r_ptype, Q), (R_st.r_leb, Q), (R_st.r_psize, Q), (R_st.r_elemadv, Q), (R_st.r_byteorder, Q)],
         level_text="partial: cross-check of sibling implementations (6 walkers, 7 translation sites, 3 LEB128 functions, 10 hasattr guards) on their CFGs; the struct tests never pack a structure with padding or a bit-field",
         level_note="Trusted: the walker template (cursor = first argument of f.align) and the skip-field idiom (`continue` under a test of the field); cross-class deviations of the pointer-size letter set (VarField/CntField translate only 'P') are listed as undecided because they were not confirmed as defects.",
         technique="sibling cross-check of functions implementing one scheme (path check on statement CFGs + table agreement)",
@@ -227,7 +227,7 @@ PROPS = {
             "arbitrary files, symbol-name decoding, offset arithmetic over tables; PE and Mach-O layouts are not compared (no "
             "reference header available offline)."
         ),
-        rules=[(R_fm.r_structref_elf, Q), (R_fm.r_rectab, Q), (R_fm.r_cksum, Q), (R_fm.r_entry, Q), (R_fm.r_union, Q), (R_fm.r_purequery, Q), (R_fm.r_tabwalk, Q), (R_fm.r_geom, Q), (R_fm.r_name_formats, Q), (R_fm.r_priv_formats, Q)],
+        rules=[(R_fm.r_structref_elf, Q), (R_fm.r_rectab, Q), (R_fm.r_cksum, Q), (R_fm.r_entry, Q), (R_fm.r_union, Q), (R_fm.r_purequery, Q), (R_fm.r_tabwalk, Q), (R_fm.r_geom, Q), (R_fm.r_name_formats, Q), (R_fm.r_priv_formats, Q), (R_fm.r_structsize, Q), (R_fm.r_oradd, Q), (R_c20.r_truthyio, Q)],
         level_text="partial: table = reference comparison for all 16 ELF layouts (with symbolic interpretation of the 64-bit edit scripts), CFG must-raise check of the two checksum comparisons, scope/attribute checks over every function of the six format modules; the tests open 8 sample files and never a corrupted record or a 64-bit note",
         level_note="Trusted: vstat.structmodel (StructDefine language read from its docstring, natural-alignment layout, the closed set of edit idioms: any other statement on `fields` makes the class undecided); ref/elf_layout.json generated from /usr/include/elf.h with gcc (generator committed); ref/records.json hand-written.",
         technique="table = vendored reference comparison with an interpreter of field-list edit scripts; must-raise on CFG; scope resolution",
@@ -246,7 +246,7 @@ PROPS = {
             "in the format modules. Does NOT decide implicit exceptions from corrupted values (IndexError, KeyError, TypeError), "
             "wall-time, or cross-format exclusivity."
         ),
-        rules=[(R_c20.r_raise, Q), (R_c20.r_wrap, Q), (R_c20.r_progress, Q), (R_fm.r_tabwalk, Q), (R_fm.r_rectab, Q), (R_fm.r_name_formats, Q), (R_fm.r_priv_formats, Q)],
+        rules=[(R_c20.r_raise, Q), (R_c20.r_wrap, Q), (R_c20.r_progress, Q), (R_fm.r_tabwalk, Q), (R_fm.r_rectab, Q), (R_fm.r_name_formats, Q), (R_fm.r_priv_formats, Q), (R_c20.r_truthyio, Q)],
         level_text="partial: interprocedural may-raise (explicit) effect analysis over the call graph of the six format constructors, contract check of the unpack overrides, loop-progress shape check; the tests only open well-formed samples",
         level_note="Trusted: by-name callee resolution (constructors, self.method through the by-name MRO, module functions); implicit exceptions of unresolved callees are out of scope except through R-WRAP's catch-all requirement; one single-symbol exemption (MachO.__read_symtab NotImplementedError: magic already checked) is listed with its reason in RAISE_EXEMPT.",
         technique="interprocedural may-raise effect analysis + handler-contract and loop-progress shape checks on the AST",
@@ -263,7 +263,7 @@ PROPS = {
             "attribute its constructor stores; (R-GEOM/R-TABWALK) segment tables are located and walked with the geometry the "
             "file declares. Does NOT decide byte equality of the whole image, relocation slots, page arithmetic, instruction fetch."
         ),
-        rules=[(R_fm.r_segimg, Q), (R_fm.r_loaderpc, Q), (R_fm.r_entry, Q), (R_fm.r_purequery, Q), (R_fm.r_geom, Q), (R_fm.r_tabwalk, Q)],
+        rules=[(R_fm.r_segimg, Q), (R_fm.r_loaderpc, Q), (R_fm.r_entry, Q), (R_fm.r_purequery, Q), (R_fm.r_geom, Q), (R_fm.r_tabwalk, Q), (R_fm.r_oradd, Q)],
         level_text="partial: must-use (def-use) checks on the three loadsegment implementations and all 12 OS loaders; the loader tests check entry points of three samples and never the zero-filled tail of a segment",
         level_note="Trusted: attribute names identify the file-size / memory-size fields (p_filesz/p_memsz, SizeOfRawData/VirtualSize, filesize/vmsize); one-level helper resolution (self.readsegment).",
         technique="must-use / must-flow (def-use) rules over the AST of the loaders",
@@ -324,7 +324,7 @@ PROPS["C04"] = dict(
         "(R-HANDLERS) the scan's handlers still absorb DecodeError and InstructionError; (R-RESET) the pending prefix is dropped on "
         "every exit, so the recursion on prefixes starts clean."
     ),
-    rules=[(R_c04.r_index, Q), (R_c11.r_reset, Q)],
+    rules=[(R_c04.r_index, Q), (R_c04.r_treero, Q), (R_c11.r_reset, Q)],
     level_text="partial (necessary conditions only): writer/reader agreement and ordering invariants of the two functions that build and walk the index; the tests decode ~150 byte strings through it",
     level_note="Trusted: recognition of the sort call, the reduce / &= form of the split mask, the filing statement and the look-up; unrecognised forms are undecided, not alarmed.  A comparison of the tree against a linear scan for all words needs values and is not attempted.",
     technique="sibling (writer/reader) agreement + ordering / must-not-exit checks on the AST and CFG of two functions",
